@@ -3,6 +3,7 @@
 package kernel
 
 import (
+	"encoding/hex"
 	"bytes"
 	"encoding/binary"
 	"fmt"
@@ -92,9 +93,22 @@ func vpC30Auth(call vpC30Call, msg []byte) (r vpC30Result) {
 	return
 }
 
+// canonical encodings of the eight points of small order
+var vpC30SmallOrder = []string{
+	"0100000000000000000000000000000000000000000000000000000000000000",
+	"0100000000000000000000000000000000000000000000000000000000000000",
+	"ecffffffffffffffffffffffffffffffffffffffffffffffffffffffffffff7f",
+	"0000000000000000000000000000000000000000000000000000000000000000",
+	"0000000000000000000000000000000000000000000000000000000000000080",
+	"26e8958fc2b227b045c3f489f2ef98f0d5dfac05d3c63339b13802886d53fc05",
+	"26e8958fc2b227b045c3f489f2ef98f0d5dfac05d3c63339b13802886d53fc85",
+	"c7176a703d4dd84fba3c0b760d10670f2a2053fa2c39ccc64ec7fd7792ac037a",
+	"c7176a703d4dd84fba3c0b760d10670f2a2053fa2c39ccc64ec7fd7792ac03fa",
+}
+
 func TestVP_C30_authenticate(t *testing.T) {
-	c := kit.New(t, "C30", "rapid: signer key from 64 drawn seed bytes, random network and recipient ids, relayer flag byte in {0,1,2,255}, timeout in {10 (handshake), 5, 30, 600, 0 and -1 (freshness disabled by the caller)}, timestamp = now + {0, ±(timeout-2s), ±(timeout+2s), ±1 day, 0, 2^63, 2^64-1}; message from BuildAuthenticationMessage or from the harness assembler with one optional defect (wrong recipient incl. the all-zero and all-ones id, self, foreign signer, flag outside the signature, signature over another recipient, zero signature, wrong length); the receiver is one node object with a real memory cache for the whole case; every accepted message is then mutated, on that same node (after its cache settled), at each of the 137 bytes with 3 xor masks, truncated and extended; non-trivial = accepted message (with its full mutation sweep) or a single-defect twin; distinct by message bytes")
-	c.Require("accepted", "accepted:built", "accepted:assembled", "reject:stale-past", "reject:stale-future", "reject:recipient", "reject:recipient-zero", "reject:self", "reject:foreign-signer", "reject:flag-unsigned", "reject:length", "accepted:timeout-disabled-old", "mutant-rejected", "flag:relayer", "flag:plain")
+	c := kit.New(t, "C30", "rapid: signer key from 64 drawn seed bytes, random network and recipient ids, relayer flag byte in {0,1,2,255}, timeout in {10 (handshake), 5, 30, 600, 0 and -1 (freshness disabled by the caller)}, timestamp = now + {0, ±(timeout-2s), ±(timeout+2s), ±1 day, 0, 2^63, 2^64-1}; message from BuildAuthenticationMessage or from the harness assembler with one optional defect (wrong recipient incl. the all-zero and all-ones id, self, foreign signer, flag outside the signature, signature over another recipient, zero signature, a named key of small order with the signature (R=B, s=1) or (R=neutral, s=0), wrong length); the receiver is one node object with a real memory cache for the whole case; every accepted message is then mutated, on that same node (after its cache settled), at each of the 137 bytes with 3 xor masks, truncated and extended; non-trivial = accepted message (with its full mutation sweep) or a single-defect twin; distinct by message bytes")
+	c.Require("accepted", "accepted:built", "accepted:assembled", "reject:stale-past", "reject:stale-future", "reject:recipient", "reject:recipient-zero", "reject:self", "reject:foreign-signer", "reject:flag-unsigned", "reject:unsignable-key", "reject:length", "accepted:timeout-disabled-old", "mutant-rejected", "flag:relayer", "flag:plain")
 	c.Assume("the wall clock advances less than 2 s between the harness reading it and AuthenticateAs reading it; cases where more than 1 s elapsed across the call are discarded (class clock-moved)")
 	kit.SetChecks(kit.N(300, 20000))
 	rapid.Check(t, func(t *rapid.T) {
@@ -116,7 +130,7 @@ func TestVP_C30_authenticate(t *testing.T) {
 		defer rcache.Close()
 		receiver := &Node{networkId: net, IdForNetwork: recipient, cacheStore: rcache}
 
-		defect := rapid.SampledFrom([]string{"none", "none", "none", "built", "built", "recipient", "self", "foreign-signer", "flag-unsigned", "signed-other-recipient", "zero-signature", "length", "stale"}).Draw(t, "defect")
+		defect := rapid.SampledFrom([]string{"none", "none", "none", "built", "built", "recipient", "self", "foreign-signer", "flag-unsigned", "signed-other-recipient", "zero-signature", "unsignable-key", "length", "stale"}).Draw(t, "defect")
 		if defect == "built" && flag > 1 {
 			flag = 0
 			sender.isRelayer = false
@@ -226,6 +240,28 @@ func TestVP_C30_authenticate(t *testing.T) {
 			}
 			msg = vpC30Assemble(ts, other, signer.PublicSpendKey, flag, signKey, 73)
 			copy(msg[8:40], recipient[:])
+			sigOK = false
+		case "unsignable-key":
+			// the named key is a point of small order (nobody holds a private key
+			// for it); the signature is one that satisfies s*B - x*A == R whenever
+			// x*A vanishes: R = B, s = 1 (always for the neutral element)
+			var low crypto.Key
+			lb, _ := hex.DecodeString(rapid.SampledFrom(vpC30SmallOrder).Draw(t, "small_order_key"))
+			copy(low[:], lb)
+			msg = vpC30Assemble(ts, msgRecipient, low, flag, signKey, 73)
+			bb, _ := hex.DecodeString("5866666666666666666666666666666666666666666666666666666666666666")
+			copy(msg[73:105], bb)
+			for i := 105; i < 137; i++ {
+				msg[i] = 0
+			}
+			msg[105] = 1
+			if rapid.IntRange(0, 3).Draw(t, "neutral_commitment") == 0 {
+				// R = neutral element, s = 0
+				for i := 73; i < 137; i++ {
+					msg[i] = 0
+				}
+				msg[73] = 1
+			}
 			sigOK = false
 		case "zero-signature":
 			msg = vpC30Assemble(ts, msgRecipient, signer.PublicSpendKey, flag, signKey, 73)
